@@ -32,6 +32,32 @@ Proof. intros Hc E H.
   apply (fb_run is_frame_size is_frame_size_pos ops (ginit c) g (inv_init c Hc) (fb_init is_frame_size c) E).
   apply hist_frame_fb; exact H. Qed.
 
+(* ------------------------------------------------------------------ the boolean checkers are sound *)
+Lemma hist_okb_sound (Q : gst -> op -> Prop) (q : gst -> op -> bool) :
+  (forall g o, q g o = true -> Q g o) -> forall ops g, hist_okb q g ops = true -> hist_ok Q g ops.
+Proof. intros H. induction ops as [|o ops IH]; simpl; intros g E; auto.
+  apply andb_true_iff in E. destruct E as (E1 & E2). split; auto. Qed.
+
+Lemma frame_hist_opb_sound cands g o : frame_hist_opb cands g o = true -> frame_hist_op g o.
+Proof. unfold frame_hist_opb, frame_hist_op. intros E. apply andb_true_iff in E. destruct E as (E1 & E2). split.
+  - destruct o; simpl in *; auto. apply existsb_exists in E1. destruct E1 as (sh & _ & E1).
+    apply andb_true_iff in E1. destruct E1 as (A & B). exists sh. split; lia.
+  - destruct o as [n| | |b|i k|i k]; simpl in *; auto. intros r Hr Hm. rewrite Hr, Hm in E2.
+    apply orb_true_iff in E2. destruct E2 as [E2|E2]; [left; lia|right].
+    apply existsb_exists in E2. destruct E2 as (x & Hx & E2). apply Z.eqb_eq in E2. subst x. exact Hx. Qed.
+
+Lemma al_opb_sound g o : al_opb g o = true -> al_op g o.
+Proof. destruct o as [n| | |b|i k|i k]; simpl; auto.
+  - intros E. apply Z.mod_divide; lia.
+  - intros E. apply orb_true_iff in E. destruct E as [E|E]; [left; apply Z.mod_divide; lia|right].
+    intros r Hr Hm. rewrite Hr, Hm in E. lia. Qed.
+
+Lemma frame_histb_sound cands ops g : hist_okb (frame_hist_opb cands) g ops = true -> hist_ok frame_hist_op g ops.
+Proof. apply hist_okb_sound. apply frame_hist_opb_sound. Qed.
+
+Lemma al_histb_sound ops g : hist_okb al_opb g ops = true -> hist_ok al_op g ops.
+Proof. apply hist_okb_sound. apply al_opb_sound. Qed.
+
 (* C05_packet_whole *)
 Theorem packet_whole c ops g i g' rr :
   0 < c -> grun (ginit c) ops = Some g -> hist_ok frame_hist_op (ginit c) ops ->
